@@ -5,6 +5,7 @@ import (
 	"encoding/hex"
 	"encoding/json"
 	"fmt"
+	"github.com/cosmos/cosmos-sdk/types/query"
 	"math/rand/v2"
 	"sort"
 	"strconv"
@@ -272,7 +273,7 @@ func c17AfterBlock(w *World, rec *BlockRecord, txs []*TxInfo) {
 	m.Prev, m.PrevVer = metas, params.ProtocolVersion
 	// --- the gRPC view of the registry equals the store
 	if !w.C.Halted {
-		res, ok := w.grpcQuery("/evermint.cpc.v1.Query/CustomPrecompiledContracts", &cpctypes.QueryCustomPrecompiledContractsRequest{}, 0)
+		res, ok := w.grpcQuery("/evermint.cpc.v1.Query/CustomPrecompiledContracts", &cpctypes.QueryCustomPrecompiledContractsRequest{Pagination: &query.PageRequest{Limit: 100000}}, 0)
 		if ok && res.Code == 0 {
 			var qr cpctypes.QueryCustomPrecompiledContractsResponse
 			if err := proto.Unmarshal(res.Value, &qr); err == nil {
@@ -303,12 +304,12 @@ func c17AfterBlock(w *World, rec *BlockRecord, txs []*TxInfo) {
 func TmplFwd() []byte {
 	a := NewAsm()
 	a.Push(0).Op(vm.CALLDATALOAD).Push(0xf8).Op(vm.SHR) // k
-	a.Op(vm.DUP1, vm.SLOAD, vm.SWAP1)                  // target, k
+	a.Op(vm.DUP1, vm.SLOAD, vm.SWAP1)                   // target, k
 	a.Push(1).Op(vm.EQ).PushLabel("b32").Op(vm.JUMPI)
 	a.Push(Selector("name()")).PushLabel("go").Op(vm.JUMP)
 	a.Label("b32")
 	a.Push(Selector("bech32AccountAddrPrefix()"))
-	a.Label("go") // target, selector
+	a.Label("go")                                 // target, selector
 	a.Push(0xe0).Op(vm.SHL).Push(0).Op(vm.MSTORE) // mem[0:4] = selector ; stack: target
 	a.Push(0).Push(0).Push(4).Push(0).Push(0).Op(vm.DUP6, vm.GAS, vm.CALL)
 	a.Push(0).Op(vm.MSTORE) // mem[0] = success
@@ -549,7 +550,40 @@ func init() {
 // an IBC voucher: a bank denomination with upper-case letters
 const ibcDenom = "ibc/27394FB092D2ECCD56123C74F36E4C1F926001CEADA9CA97EA622B25F41E5EB2"
 
+// genC17Many: more than a hundred registered precompiles (list queries paginate at 100 by default): every one of them
+// must still be wired into the EVM.
+func genC17Many(rng *rand.Rand, seed uint64) *Script {
+	g := pcGenesis(rng)
+	g.Erc20Native, g.StakingCpc = true, rng.IntN(2) == 0
+	g.Wallets = 4
+	g.CpcWhitelist = []int{0}
+	g.MaxGas = -1
+	n := 99 + rng.IntN(8)
+	g.ExtraDenoms = nil
+	for i := 0; i < n; i++ {
+		g.ExtraDenoms = append(g.ExtraDenoms, fmt.Sprintf("many%03d", i))
+	}
+	s := &Script{Prop: "C17", Seed: seed, Gen: g, Extra: map[string]string{}}
+	ops := []Op{{K: "block", Dt: 5}}
+	for i := 0; i < n; i++ {
+		ops = append(ops, Op{K: "msg", W: 0, Mut: "cpc_erc20", Denom: g.ExtraDenoms[i], Typ: 6})
+		if i%30 == 29 {
+			ops = append(ops, Op{K: "block", Dt: 5})
+		}
+	}
+	ops = append(ops, Op{K: "block", Dt: 5})
+	for i := 0; i < 6; i++ {
+		ops = append(ops, Op{K: "pc", W: rng.IntN(g.Wallets), To: pick(rng, "staking", fmt.Sprintf("erc20:%d", rng.IntN(n)), fmt.Sprintf("erc20:%d", rng.IntN(n))), Mut: "name"})
+	}
+	ops = append(ops, Op{K: "block", Dt: 5})
+	s.Ops = ops
+	return s
+}
+
 func genC17(rng *rand.Rand, seed uint64, tier string) *Script {
+	if rng.IntN(60) == 0 {
+		return genC17Many(rng, seed)
+	}
 	g := pcGenesis(rng)
 	g.Erc20Native, g.StakingCpc = rng.IntN(2) == 0, rng.IntN(2) == 0
 	g.ExtraDenoms = []string{"utwo", "uthree", ibcDenom}
